@@ -66,7 +66,7 @@ jobs:
       image: i
       credentials:
         username: u
-        password: p
+        password: ${{ secrets.cs }}
     services:
       s1:
         image: i
@@ -89,6 +89,150 @@ jobs:
       a: b
     secrets:
       s: t
+`
+
+// A clean workflow that uses every key of the syntax once (positions for C12 /
+// C03 / C07); numbers and booleans are given as ${{ }}-capable strings where
+// the syntax allows an expression.
+const verifSkeletonFull = `
+name: n
+run-name: r
+on:
+  push:
+    branches: [main]
+    tags: [v1]
+    paths: [src]
+  pull_request:
+    types: [opened]
+    branches-ignore: [x]
+    paths-ignore: [docs]
+  workflow_run:
+    workflows: [w]
+  schedule:
+    - cron: '0 0 * * *'
+  workflow_dispatch:
+    inputs:
+      di:
+        description: d
+        required: true
+        default: a
+        type: choice
+        options: [a]
+  repository_dispatch:
+    types: [t]
+  workflow_call:
+    inputs:
+      ci:
+        description: d
+        required: false
+        default: x
+        type: string
+    secrets:
+      cs:
+        description: d
+        required: false
+    outputs:
+      co:
+        description: d
+        value: v
+permissions:
+  contents: read
+env:
+  E: v
+defaults:
+  run:
+    shell: bash
+    working-directory: d
+concurrency:
+  group: g
+  cancel-in-progress: true
+jobs:
+  j1:
+    name: n
+    runs-on:
+      group: g
+      labels: [ubuntu-latest]
+    if: true
+    timeout-minutes: 5
+    continue-on-error: false
+    environment:
+      name: e
+      url: https://example.com
+    concurrency:
+      group: g
+      cancel-in-progress: true
+    defaults:
+      run:
+        shell: bash
+        working-directory: d
+    strategy:
+      fail-fast: true
+      max-parallel: 2
+      matrix:
+        os: [a, b]
+        include:
+          - os: c
+        exclude:
+          - os: a
+    container:
+      image: i
+      credentials:
+        username: u
+        password: ${{ secrets.cs }}
+      env:
+        CE: v
+      ports: ['80']
+      volumes: ['/a:/b']
+      options: --cpus 1
+    services:
+      s1:
+        image: i
+        credentials:
+          username: u
+          password: ${{ secrets.cs }}
+        env:
+          SE: v
+        ports: ['80']
+        volumes: ['/a:/b']
+        options: --cpus 1
+    outputs:
+      o: v
+    env:
+      E: v
+    permissions:
+      contents: read
+    steps:
+      - run: echo
+        id: s1
+        name: n
+        if: true
+        shell: bash
+        working-directory: d
+        timeout-minutes: 5
+        continue-on-error: false
+        env:
+          E: v
+      - uses: actions/checkout@v4
+        with:
+          ref: x
+      - uses: docker://alpine
+        with:
+          entrypoint: e
+          args: a
+  j2:
+    needs: [j1]
+    uses: ./.github/workflows/w.yml
+    with:
+      a: b
+    secrets:
+      s: t
+  j3:
+    runs-on: ubuntu-latest
+    container: img
+    environment: e
+    concurrency: g
+    steps:
+      - run: echo
 `
 
 type verifCtx int
@@ -332,6 +476,7 @@ type verifScalarSite struct {
 	node *yaml.Node
 	ctx  verifCtx // context of the mapping that holds it (or of the sequence's owner)
 	key  string   // key under which it (or its sequence) sits
+	path string   // generalised syntax path, e.g. jobs.<job_id>.steps.run
 }
 
 type verifSites struct {
@@ -339,7 +484,38 @@ type verifSites struct {
 	scalars []verifScalarSite
 }
 
+// verifPathElem generalises user-chosen ids the way GitHub's documentation writes them.
+func verifPathElem(c verifCtx, parentPath, key string) string {
+	switch c {
+	case cxJobs:
+		return "<job_id>"
+	case cxServices:
+		return "<service_id>"
+	case cxOutputs:
+		return "<output_id>"
+	case cxCallInputs:
+		return "<inputs_id>"
+	case cxCallOutputs:
+		return "<output_id>"
+	case cxSecrets:
+		return "<secrets_id>"
+	case cxWith:
+		if parentPath == "jobs.<job_id>.with" {
+			return "<with_id>"
+		}
+	case cxEnv:
+		if parentPath == "jobs.<job_id>.container.env" || parentPath == "jobs.<job_id>.services.<service_id>.env" {
+			return "<env_id>"
+		}
+	}
+	return key
+}
+
 func (s *verifSites) walk(n *yaml.Node, c verifCtx, key string, owner verifCtx) {
+	s.walkP(n, c, key, owner, "")
+}
+
+func (s *verifSites) walkP(n *yaml.Node, c verifCtx, key string, owner verifCtx, path string) {
 	switch n.Kind {
 	case yaml.MappingNode:
 		if c == cxLeaf || c == cxNone {
@@ -348,7 +524,12 @@ func (s *verifSites) walk(n *yaml.Node, c verifCtx, key string, owner verifCtx) 
 		s.maps = append(s.maps, verifMapSite{n, c})
 		for k := 0; k+1 < len(n.Content); k += 2 {
 			kk := n.Content[k].Value
-			s.walk(n.Content[k+1], verifChildCtx(c, kk, n.Content[k+1]), kk, c)
+			pe := verifPathElem(c, path, kk)
+			np := pe
+			if path != "" {
+				np = path + "." + pe
+			}
+			s.walkP(n.Content[k+1], verifChildCtx(c, kk, n.Content[k+1]), kk, c, np)
 		}
 	case yaml.SequenceNode:
 		ec := cxLeaf
@@ -364,19 +545,23 @@ func (s *verifSites) walk(n *yaml.Node, c verifCtx, key string, owner verifCtx) 
 		}
 		for _, e := range n.Content {
 			if e.Kind == yaml.ScalarNode {
-				s.scalars = append(s.scalars, verifScalarSite{e, owner, key})
+				s.scalars = append(s.scalars, verifScalarSite{e, owner, key, path})
 			} else {
-				s.walk(e, ec, key, owner)
+				s.walkP(e, ec, key, owner, path)
 			}
 		}
 	case yaml.ScalarNode:
-		s.scalars = append(s.scalars, verifScalarSite{n, owner, key})
+		s.scalars = append(s.scalars, verifScalarSite{n, owner, key, path})
 	}
 }
 
 // verifSkeletonSites parses the skeleton and lists its mapping and scalar sites.
-func verifSkeletonSites() (*yaml.Node, *verifSites) {
-	doc := verifParseYAML(verifSkeleton)
+func verifSkeletonSites() (*yaml.Node, *verifSites) { return verifSkeletonSitesOf(verifSkeleton) }
+
+func verifFullSkeletonSites() (*yaml.Node, *verifSites) { return verifSkeletonSitesOf(verifSkeletonFull) }
+
+func verifSkeletonSitesOf(src string) (*yaml.Node, *verifSites) {
+	doc := verifParseYAML(src)
 	s := &verifSites{}
 	s.walk(doc.Content[0], cxWorkflow, "", cxNone)
 	return doc, s
